@@ -17,7 +17,8 @@ EXTENDS Router
 CONSTANTS
     CIDs,           \* client ids
     Topics,         \* topic names (sequences of symbols)
-    Filters,        \* topic filters (sequences of symbols)
+    Filters,        \* topic filters (sequences of symbols); with a shared path $share/g/f also its base filter f
+    SubFilters,     \* the filters clients subscribe to / unsubscribe from (subset of Filters)
     NetCid,         \* [Nets -> CIDs]: which client uses which network connection
     NetClean,       \* [Nets -> BOOLEAN]: clean-session flag it connects with
     NetWill,        \* [Nets -> messages or NOMSG]: will it registers
@@ -35,6 +36,13 @@ CONSTANTS
 
 \* src: the net whose link sent the event (ghost, for the isolation properties)
 Ev(kind, id, arg, src) == [kind |-> kind, id |-> id, arg |-> arg, src |-> src]
+
+SharedFilters == {f \in Filters : IsShared(f)}
+\* clients with a live connection that holds the subscription
+LiveMembers(r, f) == {c \in CIDs : r.connMap[c] >= 0 /\ f \in r.conns[r.connMap[c]].subs}
+\* message ids of the forwards of connection id that are not acknowledged, on the log of filter b
+UnackedMs(r, id, b) == {r.logs[b][r.conns[id].inflight[i][3] + 1].m :
+                          i \in {i \in 1..Len(r.conns[id].inflight) : r.conns[id].inflight[i][2] = b /\ r.conns[id].inflight[i][3] >= 0}}
 
 GInit ==
     [npub |-> 0, nsub |-> 0, nclose |-> 0,
@@ -60,7 +68,18 @@ GInit ==
      retDone |-> [c \in CIDs |-> [f \in Filters |-> FALSE]],   \* the retained replay of this subscription has happened (C15)
      badRet |-> FALSE,                    \* a retained replay broke a rule of C15
      willCount |-> [c \in CIDs |-> 0],    \* will publishes since the will was registered (C16)
-     discHandled |-> [c \in CIDs |-> FALSE]]   \* a DISCONNECT packet of the registering connection was handled
+     discHandled |-> [c \in CIDs |-> FALSE],  \* a DISCONNECT packet of the registering connection was handled
+     \* ---- C17, per shared filter path
+     shstart |-> [f \in SharedFilters |-> -1],   \* log position from which the group is owed messages; -1 = no live member
+     shset |-> [f \in SharedFilters |-> {}],      \* message ids forwarded through the group since then and not taken back
+     shlast |-> [f \in SharedFilters |-> [c \in CIDs |-> 0]],   \* log position of the last (first-time) forward to each member
+     shDup |-> FALSE,          \* a message was forwarded although it was in shset (known finding left out)
+     shDupAny |-> FALSE,       \* the same, known finding included
+     shBadOrder |-> FALSE,     \* a member was sent a message that lies before one it was sent earlier
+     shNotOwed |-> FALSE,      \* a message accepted before the group became non-empty was forwarded through it
+     shever |-> [f \in SharedFilters |-> {}],     \* message ids ever forwarded through the group since then
+     shredo |-> [f \in SharedFilters |-> {}],     \* message ids whose forward an ended connection took back unacknowledged
+     shknown |-> [f \in SharedFilters |-> {}]]    \* known finding: message ids behind a group cursor that was set back
 
 Init ==
     /\ R = RInit(Filters, Topics, CIDs)
@@ -126,6 +145,34 @@ NewSub(c, f) ==
        \/ /\ ReqsFor(R', c, f) # <<>> /\ ReqsFor(R', c, f)[1].retained
           /\ (ReqsFor(R, c, f) = <<>> \/ ~ReqsFor(R, c, f)[1].retained \/ ReqsFor(R, c, f)[1].cursor # ReqsFor(R', c, f)[1].cursor)
 
+\* every member the group has after the step unsubscribed during the step (and subscribed again): the group was empty
+\* in between, what it is owed starts afresh
+Regrouped(f) == \A c \in LiveMembers(R', f) : R'.unsubs[c][f] # R.unsubs[c][f]
+\* some member's connection is the same before and after the step (a connection that replaces another one of the same
+\* client id is a member that left and one that joined)
+Continued(f) == \E c \in LiveMembers(R, f) \cap LiveMembers(R', f) : ConnNet(R, c) = ConnNet(R', c)
+Restarted(f) == ~Continued(f) \/ Regrouped(f)
+
+\* ---- C17 helpers (primed state = after the router step)
+PosIn(r, b, m) == CHOOSE i \in 1..Len(r.logs[b]) : r.logs[b][i].m = m
+\* forwards that a connection ending (or being replaced) in this step takes back unacknowledged
+ShBack(f) == UNION {UnackedMs(R, R.connMap[c], Base(f)) : c \in {c \in CIDs : R.connMap[c] >= 0 /\ ConnNet(R, c) # ConnNet(R', c)}}
+\* known finding: the cursor of the group goes backwards in this step (handle_disconnection of a persistent member): the
+\* messages between the new and the old cursor that are not taken back will be forwarded a second time
+ShRewound(f) == LET k == GroupKey(f) IN
+                IF R.groups[k].has /\ R'.groups[k].has /\ R'.groups[k].cursor < R.groups[k].cursor
+                  THEN {R.logs[Base(f)][i].m : i \in (R'.groups[k].cursor + 1)..R.groups[k].cursor} ELSE {}
+ShKnown(f) == G.shknown[f] \cup ShRewound(f)
+ShRedo(f) == G.shredo[f] \cup ShBack(f)
+\* log positions of the forwards in ms that are first-time forwards (not redeliveries)
+ShFirstPos(f, ms) == LET fs == SelectSeq(ms, LAMBDA m : m \notin ShRedo(f) \cup ShKnown(f)) IN
+                     [i \in 1..Len(fs) |-> PosIn(R', Base(f), fs[i])]
+
+\* log position from which the group of f is owed messages, after this step
+ShStart(f) == IF LiveMembers(R', f) = {} THEN -1
+              ELSE IF Restarted(f) THEN ReqCursor(R', CHOOSE c \in LiveMembers(R', f) : TRUE, f)
+              ELSE G.shstart[f]
+
 GhostRouterStep ==
     LET out(n) == NewOut(n)
         newFwd(c, f) == LET ns == {x \in Nets : nets[x].cid = c /\ FwdMs(out(x), f) # <<>>} IN
@@ -180,7 +227,34 @@ GhostRouterStep ==
                                                c.acks[1].id # (IF ~nets[n].clean /\ G.sess[nets[n].cid] THEN 1 ELSE 0),
             !.dirtyClean = @ \/ \E n \in Nets : /\ ~nets[n].held /\ nets'[n].held /\ nets[n].clean
                                                  /\ LET c == R'.conns[nets'[n].id] IN c.subs # {} \/ c.reqs # <<>> \/ Len(c.acks) # 1,
-            !.owed = [n \in Nets |-> IF failed(n) THEN G.owed[n] ELSE rem(n)]]
+            !.owed = [n \in Nets |-> IF failed(n) THEN G.owed[n] ELSE rem(n)],
+            \* ---- C17
+            !.shstart = [f \in SharedFilters |-> ShStart(f)],
+            !.shset = [f \in SharedFilters |->
+                            IF LiveMembers(R', f) = {} \/ Restarted(f) THEN {}
+                            ELSE (G.shset[f] \ ShBack(f)) \cup UNION {SeqToSet(newFwd(c, f)) : c \in CIDs}],
+            !.shlast = [f \in SharedFilters |-> [c \in CIDs |->
+                            IF LiveMembers(R', f) = {} \/ Restarted(f) THEN 0
+                            ELSE LET ps == ShFirstPos(f, newFwd(c, f)) IN IF ps = <<>> THEN G.shlast[f][c] ELSE ps[Len(ps)]]],
+            !.shDupAny = @ \/ \E f \in SharedFilters : ~(LiveMembers(R', f) = {} \/ Restarted(f)) /\ \E c \in CIDs :
+                             LET nf == newFwd(c, f) IN
+                             \/ \E i \in 1..Len(nf) : nf[i] \in G.shset[f] \ ShBack(f)
+                             \/ \E i, j \in 1..Len(nf) : i # j /\ nf[i] = nf[j],
+            !.shDup = @ \/ \E f \in SharedFilters : ~(LiveMembers(R', f) = {} \/ Restarted(f)) /\ \E c \in CIDs :
+                             LET nf == newFwd(c, f) IN
+                             \/ \E i \in 1..Len(nf) : nf[i] \in G.shset[f] \ ShBack(f) /\ nf[i] \notin ShKnown(f)
+                             \/ \E i, j \in 1..Len(nf) : i # j /\ nf[i] = nf[j] /\ nf[i] \notin ShKnown(f),
+            !.shBadOrder = @ \/ \E f \in SharedFilters : ~(LiveMembers(R', f) = {} \/ Restarted(f)) /\ \E c \in CIDs :
+                             LET ps == ShFirstPos(f, newFwd(c, f)) IN
+                             /\ ps # <<>>
+                             /\ (ps[1] <= G.shlast[f][c] \/ \E i \in 1..(Len(ps) - 1) : ps[i + 1] <= ps[i]),
+            !.shNotOwed = @ \/ \E f \in SharedFilters : \E c \in CIDs : \E i \in 1..Len(newFwd(c, f)) :
+                             ShStart(f) < 0 \/ PosIn(R', Base(f), newFwd(c, f)[i]) <= ShStart(f),
+            !.shredo = [f \in SharedFilters |-> IF LiveMembers(R', f) = {} \/ Restarted(f) THEN {} ELSE ShRedo(f)],
+            !.shknown = [f \in SharedFilters |-> IF LiveMembers(R', f) = {} \/ Restarted(f) THEN {} ELSE ShKnown(f)],
+            !.shever = [f \in SharedFilters |->
+                            IF LiveMembers(R', f) = {} \/ Restarted(f) THEN {}
+                            ELSE G.shever[f] \cup UNION {SeqToSet(newFwd(c, f)) : c \in CIDs}]]
 
 ---------------------------------------------------------------------------
 (*                               router thread                             *)
@@ -274,13 +348,13 @@ Owes(p) == CASE p.t = "publish" /\ p.msg.q = 1 -> << <<"puback", p.id>> >>
 
 CSubscribe(n) ==
     /\ n \in Subscribers /\ G.nsub < MaxSubOps
-    /\ \E f \in Filters, q \in SubQoS :
+    /\ \E f \in SubFilters, q \in SubQoS :
          /\ Push(n, PSub(NextPk(n), << <<f, q>> >>))
          /\ G' = [G EXCEPT !.nsub = @ + 1, !.cpk[n] = NextPk(n), !.owed[n] = Append(@, <<"suback", NextPk(n)>>)]
 
 CUnsubscribe(n) ==
     /\ EnUnsub /\ n \in Subscribers /\ G.nsub < MaxSubOps
-    /\ \E f \in Filters :
+    /\ \E f \in SubFilters :
          /\ Push(n, PUnsub(NextPk(n), << <<f, 0>> >>))
          /\ G' = [G EXCEPT !.nsub = @ + 1, !.cpk[n] = NextPk(n),
                            !.owed[n] = Append(@, <<"unsuback", NextPk(n)>>)]
@@ -373,13 +447,13 @@ ReadyqSound ==
 
 \* every subscription of a session has exactly one data request somewhere
 NoLostRequest ==
-    \A c \in CIDs : \A f \in Filters :
+    \A c \in CIDs : \A f \in Filters \ SharedFilters :
         Len(ReqsFor(R, c, f)) = (IF f \in SubsOf(R, c) THEN 1 ELSE 0)
 
 \* C01: what was forwarded for a subscription is exactly the log between its start and its cursor, in order
 LogMs(f, a, b) == [i \in 1..(b - a) |-> R.logs[f][a + i].m]
 DeliveredExactly ==
-    \A c \in CIDs : \A f \in SubsOf(R, c) :
+    \A c \in CIDs : \A f \in SubsOf(R, c) \ SharedFilters :
         LET k == ReqCursor(R, c, f) st == G.start[c][f] IN
         (k >= 0 /\ st >= 0) => (k >= st /\ k <= Len(R.logs[f]) /\ G.fwd[c][f] = LogMs(f, st, k))
 NoSpurious == ~G.spurious
@@ -447,7 +521,31 @@ Quiescent == RouterIdle /\ ClientsDone /\ ~R.panicked
 \* C01 C06 C09 "no further stimulus" clauses: at quiescence nothing is undelivered and no reply is owed
 QuiescentComplete ==
     Quiescent =>
-        /\ \A i \in LiveIds : \A f \in R.conns[i].subs :
+        /\ \A i \in LiveIds : \A f \in R.conns[i].subs \ SharedFilters :
                nets[R.conns[i].net].phase = "up" => ReqCursor(R, R.conns[i].cid, f) = Len(R.logs[f])
         /\ \A n \in Nets : (nets[n].phase = "up" /\ nets[n].held) => G.owed[n] = <<>>
+
+---------------------------------------------------------------------------
+(* C17: shared subscriptions. A message appended to the log of the base filter while the group (the clients with a live     *)
+(* connection subscribed to the shared path) is non-empty is owed to exactly one member.                                    *)
+\* at most one member, never twice (a forward that a member's connection took down unacknowledged may be made again)
+SharedAtMostOnce == ~G.shDupAny
+\* the same, leaving out the duplicates of the known finding (messages behind a group cursor that was set back)
+SharedAtMostOnceButRewind == ~G.shDup
+\* each member sees its share in acceptance order (forwards made again for a connection that ended are redeliveries)
+SharedMemberOrder == ~G.shBadOrder
+\* only messages accepted while the group existed
+SharedOnlyOwed == ~G.shNotOwed
+\* the router can do nothing more on its own: no event is queued and a scheduling turn of any ready connection changes
+\* nothing (a member whose turn it is not stays in the ready queue and is polled again and again)
+Rot(q, k) == SubSeq(q, k + 1, Len(q)) \o SubSeq(q, 1, k)
+ConsumeNoop(r) == \A x \in Consume(St(r, nets)) : x.nets = nets /\ [x.r EXCEPT !.readyq = <<>>] = [r EXCEPT !.readyq = <<>>]
+RouterStill == chan = <<>> /\ \A k \in 0..(Len(R.readyq) - 1) : ConsumeNoop([R EXCEPT !.readyq = Rot(R.readyq, k)])
+\* publishers have stopped, members have acknowledged, the router is still: every message accepted while the group was
+\* non-empty has been forwarded to some member
+SharedComplete ==
+    (RouterStill /\ ClientsDone /\ ~R.panicked) =>
+        \A f \in SharedFilters :
+            (G.shstart[f] >= 0 /\ \A c \in LiveMembers(R, f) : nets[ConnNet(R, c)].phase = "up") =>
+                \A i \in (G.shstart[f] + 1)..Len(R.logs[Base(f)]) : R.logs[Base(f)][i].m \in G.shever[f]
 =============================================================================
